@@ -390,8 +390,7 @@ impl McnkChunk {
             let _chunk_header = ChunkHeader::read_le(reader)?;
 
             // Read the actual data using size_liquid from MCNK header
-            let mut data = vec![0u8; header.size_liquid as usize];
-            reader.read_exact(&mut data)?;
+            let data = crate::chunk_header::read_vec(reader, header.size_liquid as usize)?;
 
             if !data.is_empty() {
                 // Pass MCNK flags to MCLQ parser for liquid type detection
@@ -523,8 +522,7 @@ fn read_subchunk<R: Read + Seek>(
     })?;
 
     // Read subchunk data
-    let mut data = vec![0u8; subchunk_header.size as usize];
-    reader.read_exact(&mut data)?;
+    let data = crate::chunk_header::read_vec(reader, subchunk_header.size as usize)?;
 
     Ok(data)
 }
@@ -609,8 +607,7 @@ fn read_subchunk_with_size<R: Read + Seek>(
     }
 
     // Read subchunk data using the expected size
-    let mut data = vec![0u8; expected_size as usize];
-    reader.read_exact(&mut data)?;
+    let data = crate::chunk_header::read_vec(reader, expected_size as usize)?;
 
     Ok(data)
 }
@@ -650,8 +647,7 @@ fn scan_for_subchunk<R: Read + Seek>(
 
         if subchunk_header.id == target_id {
             // Found it! Read the data
-            let mut data = vec![0u8; subchunk_header.size as usize];
-            reader.read_exact(&mut data)?;
+            let data = crate::chunk_header::read_vec(reader, subchunk_header.size as usize)?;
             return Ok(data);
         }
 
